@@ -174,6 +174,10 @@ class OrientedLine:
     # up-to-date)
     self.__line = line
 
+  def _set_orient(self, orient):
+    # (used by the library, as _set_line)
+    self.__orient = orient
+
   def _block_line(self):
     # the line of a reference of a connected line is renamed and removed
     # along with the referenced line; the Gfa finds a fragment by the
